@@ -104,8 +104,11 @@ func verifIntrinsic(fr *frame, name string, args []value) value {
 		l, _ := strParts(args[0])
 		r.observed = append(r.observed, fmt.Sprintf("%s=%v", l, conc(args[1])))
 		return nil
-	case "Native":
+	case "Native", "Free":
 		return false
+	}
+	if i.raceIntrinsic(name, args) {
+		return nil
 	}
 	panic(engineErrorf("unknown zzverif function %s", name))
 }
